@@ -443,9 +443,10 @@ class VQA:
         ----------
         angles: list of float
             Circuit free parameters
-        indicies_to_compute: list of int, optional
-            Block indices for which to use in computing the jacobian.
-            By default, this is every index (every block).
+        indices_to_compute: list of int, optional
+            Indices of the free parameters for which to compute the
+            partial derivative. By default, this is every parameter.
+            The entries are returned in increasing order of the index.
 
         Returns
         -------
@@ -468,14 +469,14 @@ class VQA:
         i = 0
         for k, block in enumerate(self.get_block_series()):
             n_params = block.get_free_parameters_num()
-            if n_params > 0:
-                if i in indices_to_compute:
+            for term_index in range(n_params):
+                if i + term_index in indices_to_compute:
                     dBlock = block.get_unitary_derivative(
-                        angles[i : i + n_params]
+                        angles[i : i + n_params], term_index
                     )
                     dU = modify_unitary(k, dBlock)
                     jacobian.append(self.cost_derivative(U, dU))
-                i += n_params
+            i += n_params
         return np.array(jacobian)
 
     def export_image(self, filename="circuit.png"):
